@@ -132,11 +132,13 @@ pub struct Opts {
     path: Path,
     /// explicit template arguments; None = a constant
     targs: Vec<Option<Ty>>,
+    /// how the argument expressions are written: 0 locals / calls, 1 members of a local struct / casts, 2 globals
+    form: u8,
 }
 
 impl Opts {
     fn plain() -> Self {
-        Opts { with_defs: false, path: Path::Free, targs: Vec::new() }
+        Opts { with_defs: false, path: Path::Free, targs: Vec::new(), form: 0 }
     }
 }
 
@@ -167,6 +169,9 @@ fn show_opts(o: &Opts) -> String {
     }
     if !o.targs.is_empty() {
         v.push(format!("X={}", o.targs.iter().map(show_targ).collect::<Vec<_>>().join("+")));
+    }
+    if o.form != 0 {
+        v.push(format!("E={}", o.form));
     }
     v.join(",")
 }
@@ -200,6 +205,11 @@ fn parse_opts(s: &str) -> Option<Opts> {
                     }
                 }
             };
+        } else if let Some(e) = tok.strip_prefix("E=") {
+            o.form = e.parse().ok()?;
+            if o.form > 2 {
+                return None;
+            }
         } else if let Some(x) = tok.strip_prefix("X=") {
             for t in x.split('+') {
                 if t == "#" {
@@ -661,6 +671,7 @@ fn program(cands: &[Cand], args: &[ETy], opts: &Opts, expect: Option<u32>) -> Op
     }
     // argument expressions
     let mut locals = String::new();
+    let mut members = String::new();
     let mut exprs = Vec::new();
     for (i, a) in args.iter().enumerate() {
         match (a.lvalue, a.ty.mods.0, a.ty.layer) {
@@ -671,10 +682,26 @@ fn program(cands: &[Cand], args: &[ETy], opts: &Opts, expect: Option<u32>) -> Op
                 s.push_str(&format!("{} g_a{};\n", t, i));
                 exprs.push(format!("g_a{}", i));
             }
+            (false, 0, l) if opts.form == 1 && is_numeric(l) => {
+                // a cast of a local of that type
+                let t = spell(a.ty)?;
+                locals.push_str(&format!("    {} c{};\n", t, i));
+                exprs.push(format!("({})c{}", t, i));
+            }
             (false, 0, _) => {
                 let t = spell(a.ty)?;
                 s.push_str(&format!("{} rv{}();\n", t, i));
                 exprs.push(format!("rv{}()", i));
+            }
+            (true, 0, _) if opts.form == 1 => {
+                let (t, suf) = spell2(a.ty)?;
+                members.push_str(&format!(" {} m{}{};", t, i, suf));
+                exprs.push(format!("w.m{}", i));
+            }
+            (true, 0, _) if opts.form == 2 => {
+                let (t, suf) = spell2(a.ty)?;
+                s.push_str(&format!("static {} g{}{};\n", t, i, suf));
+                exprs.push(format!("g{}", i));
             }
             (true, 0, _) => {
                 let (t, suf) = spell2(a.ty)?;
@@ -688,6 +715,10 @@ fn program(cands: &[Cand], args: &[ETy], opts: &Opts, expect: Option<u32>) -> Op
             }
             _ => return None,
         }
+    }
+    if !members.is_empty() {
+        s.push_str(&format!("struct W {{{} }};\n", members));
+        locals.push_str("    W w;\n");
     }
     let fname: String = match &opts.path {
         Path::Intrinsic(n) | Path::Object(_, n) => n.clone(),
@@ -1500,11 +1531,31 @@ impl Runner {
             out.case(&req, "-", "SKIP:declaration order not part of the permutation group");
             return;
         };
+        let mine = mine.clone();
+        let mine = &mine;
         let mut verdict = oracle(&g.judged, mine);
+        let judged_counts = (g.judged.viable.len(), g.judged.exact.len());
+        let group_verdicts: Vec<(Vec<u32>, Verdict)> = g.verdicts.clone();
+        if verdict.is_ok() && opts.form != 0 {
+            // "depends only on ... the argument types": the same types written as other expressions
+            let base = Opts { form: 0, ..opts.clone() };
+            let g0 = self.group(&sorted, args, &base);
+            if g0.expressible {
+                if let Some((_, v0)) = g0.verdicts.iter().find(|(o, _)| *o == ids) {
+                    if show_verdict(v0) != show_verdict(mine) {
+                        verdict = Err(format!(
+                            "the verdict depends on how the arguments are written, not on their types: `{}` here, `{}` with locals",
+                            show_verdict(mine),
+                            show_verdict(v0)
+                        ));
+                    }
+                }
+            }
+        }
         if verdict.is_ok() {
             // order independence: every other declaration order gives the same verdict
             // (a panic under any order is reported on every line of the group)
-            for (o, v) in &g.verdicts {
+            for (o, v) in &group_verdicts {
                 if let Verdict::Panic(p) = v {
                     verdict = Err(format!("panic {}", p));
                     break;
@@ -1529,8 +1580,7 @@ impl Runner {
             Verdict::Panic(_) => "verdict:panic",
             Verdict::Other(_) => "verdict:other-error",
         };
-        let nviable = g.judged.viable.len();
-        let nexact = g.judged.exact.len();
+        let (nviable, nexact) = judged_counts;
         let sel_template = matches!(mine, Verdict::Sel(_, Some(_)));
         let o = match verdict {
             Ok(()) => "ok".to_string(),
@@ -1560,6 +1610,9 @@ impl Runner {
         ));
         if !opts.targs.is_empty() {
             self.hist.add("call:explicit-template-args");
+        }
+        if opts.form != 0 {
+            self.hist.add(&format!("call:argument-form-{}", opts.form));
         }
         if sel_template {
             self.hist.add("verdict:selected-template");
@@ -2058,11 +2111,11 @@ pub fn run(args: &Args, out: &mut Out) {
             } else {
                 centre.iter().map(|c| random_arg(&mut rng, *c)).collect()
             };
-            r.all_orders(&cands, &a, &Opts { with_defs, path: path.clone(), targs: Vec::new() }, out);
+            r.all_orders(&cands, &a, &Opts { with_defs, path: path.clone(), targs: Vec::new(), form: 0 }, out);
             // every size of the visible set, down to a single inner overload next to the hidden outer one
             if matches!(path, Path::NsInner | Path::NsNested | Path::MethodIntFirst) {
                 for k in 1..cands.len() {
-                    r.all_orders(&cands[..k], &a, &Opts { with_defs, path: path.clone(), targs: Vec::new() }, out);
+                    r.all_orders(&cands[..k], &a, &Opts { with_defs, path: path.clone(), targs: Vec::new(), form: 0 }, out);
                 }
             }
         }
@@ -2108,7 +2161,7 @@ pub fn run(args: &Args, out: &mut Out) {
                     targs.pop();
                 }
             }
-            r.all_orders(&cands, &a, &Opts { with_defs: false, path: path.clone(), targs }, out);
+            r.all_orders(&cands, &a, &Opts { with_defs: false, path: path.clone(), targs, form: 0 }, out);
         }
     }
 
@@ -2194,7 +2247,24 @@ pub fn run(args: &Args, out: &mut Out) {
             if builtins.iter().any(|b| !b.tkinds.is_empty()) && rng.chance(1, 2) {
                 targs.push(Some(if rng.chance(1, 4) { off_grid_ty(&mut rng) } else { grid_ty(&mut rng) }));
             }
-            r.all_orders(&users, &a, &Opts { with_defs: false, path: path.clone(), targs }, out);
+            r.all_orders(&users, &a, &Opts { with_defs: false, path: path.clone(), targs, form: 0 }, out);
+        }
+    }
+    // (8) the same argument *types* written as other expressions (members of a local struct, casts, globals): the
+    //     verdict may depend on the types only
+    let nf = if args.n.is_some() { n / 8 } else if args.thorough() { 600 } else { 90 };
+    for i in 0..nf {
+        let (cands, centre) = random_set(&mut rng, &mut hist);
+        let path = [Path::Free, Path::Method, Path::MethodIntLast, Path::NsInner][(i as usize) % 4].clone();
+        for t in 0..2 {
+            let a: Vec<ETy> = if t == 0 {
+                centre.iter().map(|c| ETy { lvalue: true, ty: *c }).collect()
+            } else {
+                centre.iter().map(|c| random_arg(&mut rng, *c)).collect()
+            };
+            for form in 1..=2 {
+                r.all_orders(&cands, &a, &Opts { with_defs: false, path: path.clone(), targs: Vec::new(), form }, out);
+            }
         }
     }
     for (k, v) in &hist.0 {
